@@ -43,7 +43,8 @@ CHECKS = {
                       "panicked; a failed spawn returns Err (no handle whose join never returns)."),
                 note=K_NOTE_KERNEL + " Source hook `verif-hooks` on tiny-std. Kani has no threads: the reduction to non-commuting orders is "
                      "argued in DESIGN.md §14 and is part of the claim; the __clone assembly is replaced by a model written from its "
-                     "comments. Result type u32 in quick; (), u128, 64-byte-aligned struct in thorough. One thread at a time."),
+                     "comments. Result type u32 in quick; (), u128, 64-byte-aligned struct in thorough. One thread at a time. A violation "
+                     "is reported from the solver's verdict alone: these harnesses have no native replay (no real threads in a playback test)."),
     "C06": dict(engine="K", technique=K_TECH, design_ref="§14 (C05/C06)",
                 text=("Same harnesses as C05, resource side: in every non-commuting order of {closure returns, closure panics} x {handle joined, "
                       "handle dropped before / while / after the thread finishes} the stack mapping is unmapped exactly once, the TLS block and "
